@@ -84,7 +84,14 @@ func (c *Configuration) validate() (bool, error) {
 		}
 	}
 
+	seenServiceName := make(map[string]bool)
 	for index, serviceName := range c.ServiceNameList {
+		if seenServiceName[serviceName] {
+			err := errors.New("Invalid serviceNameList[" + strconv.Itoa(index) + "]: " +
+				serviceName + " is listed more than once.")
+			return false, err
+		}
+		seenServiceName[serviceName] = true
 		switch {
 		case serviceName == "nchf-convergedcharging":
 		case serviceName == "nchf-offlineonlycharging":
@@ -109,7 +116,8 @@ type Diameter struct {
 	Protocol string `yaml:"protocol" valid:"required"`
 	HostIPv4 string `yaml:"hostIPv4,omitempty" valid:"required,host"`
 	Port     int    `yaml:"port,omitempty" valid:"required,port"`
-	Tls      *Tls   `yaml:"tls,omitempty" valid:"optional"`
+	// the Diameter client and server always run over TLS and read pem/key unconditionally
+	Tls *Tls `yaml:"tls,omitempty" valid:"required"`
 }
 
 type Cgf struct {
@@ -141,6 +149,9 @@ func (s *Sbi) validate() (bool, error) {
 		if result, err := tls.validate(); err != nil {
 			return result, err
 		}
+	} else if s.Scheme == "https" {
+		// the https listener reads the certificate and key paths unconditionally
+		return false, errors.New("Invalid sbi: scheme https requires a tls section")
 	}
 
 	result, err := govalidator.ValidateStruct(s)
